@@ -479,7 +479,9 @@ pub fn parse_line(line: &str) -> LineInfo {
         }
     }
 
-    if !sep.is_empty() {
+    // (the backslash tag of a word starting with an escaped `$` or `|` is
+    // not an open quote)
+    if !sep.is_empty() && sep != "\\" {
         is_line_complete = semi_ok;
     }
     if has_backslash {
